@@ -142,12 +142,36 @@ pub fn run_ladder(geom: Geom, is_set: bool, n: u64) -> Result<Trace, String> {
 /// node is a distinct node with fan-out 40 (> 32: the nodes that carry an
 /// index table), for sets (distinct children) and maps (distinct outputs).
 pub fn run_wide_ladder(geom: Geom, is_set: bool, prefixes: u64) -> Result<Trace, String> {
-    run_history(geom, 40, 6, is_set, prefixes * 40, &mut |i, out| {
-        let pi = i / 40;
-        let j = (i % 40) as u8;
+    run_wide_ladder_w(geom, is_set, prefixes, 40)
+}
+
+/// `width` = fan-out of every wide node; width 0 = widths cycling through
+/// 33..=64 (nodes of different widths evicting each other).
+pub fn run_wide_ladder_w(geom: Geom, is_set: bool, prefixes: u64, width: u64) -> Result<Trace, String> {
+    if width == 0 {
+        // variable widths: precompute the key index -> (prefix, member) mapping on the fly
+        let mut pi = 0u64;
+        let mut j = 0u64;
+        let total: u64 = (0..prefixes).map(|p| 33 + (p * 7) % 32).sum();
+        return run_history(geom, 64, 6, is_set, total, &mut |i, out| {
+            let w = 33 + (pi * 7) % 32;
+            let h = (pi.wrapping_mul(7919) + j) % 65536;
+            out.clear();
+            out.extend_from_slice(&[b'A' + (pi / 4096 % 26) as u8, b'0' + (pi / 64 % 64) as u8, b'0' + (pi % 64) as u8, b'0' + j as u8, (h >> 8) as u8, h as u8]);
+            j += 1;
+            if j == w {
+                j = 0;
+                pi += 1;
+            }
+            i.wrapping_mul(0x9E37_79B9_7F4A_7C15) >> 24
+        });
+    }
+    run_history(geom, width as usize, 6, is_set, prefixes * width, &mut |i, out| {
+        let pi = i / width;
+        let j = (i % width) as u8;
         let h = (pi.wrapping_mul(7919) + j as u64) % 65536;
         out.clear();
-        out.extend_from_slice(&[b'A' + (pi / 4096 % 26) as u8, b'0' + (pi / 64 % 64) as u8, b'0' + (pi % 64) as u8, b'0' + j, (h >> 8) as u8, h as u8]);
+        out.extend_from_slice(&[b'A' + (pi / 4096 % 26) as u8, b'0' + (pi / 64 % 64) as u8, b'0' + (pi % 64) as u8, j, (h >> 8) as u8, h as u8]);
         i.wrapping_mul(0x9E37_79B9_7F4A_7C15) >> 24
     })
 }
@@ -172,7 +196,7 @@ pub fn replay(case: &Value) -> Result<String, String> {
     let geom = geom_from(&case["geom"]);
     let is_set = case["set"].as_bool().unwrap();
     if let Some(n) = case["wide_prefixes"].as_u64() {
-        return run_wide_ladder(geom, is_set, n).map(|t| format!("peak live {} bytes for {} wide nodes", t.max_live, n));
+        return run_wide_ladder_w(geom, is_set, n, case["wide_width"].as_u64().unwrap_or(40)).map(|t| format!("peak live {} bytes for {} wide nodes", t.max_live, n));
     }
     if let (Some(n), Some(kind)) = (case["ladder_n"].as_u64(), case["ladder_kind"].as_u64()) {
         return run_ladder_kind(geom, is_set, n, kind as u8).map(|t| format!("peak live {} bytes for N={}", t.max_live, n));
@@ -187,7 +211,7 @@ pub fn replay(case: &Value) -> Result<String, String> {
 pub fn plan(tier: Tier) -> Plan {
     let mut p = Plan::new("C13", "exploration");
     let thorough = tier.thorough();
-    p.rule = "counting allocator with per-thread counters; the builder streams to a discarding sink. (1) exhaustive: under the tiny cache geometries 1x1, 1x2, 2x2, 3x3 (cache saturated after a handful of inserts, i.e. the regime 'evicting on every miss' is reachable) every subset of U_ab3 as set and map, and every prefix of the sorted universes {a,b}^<=6 and {a,b,c,d}^<=4: after (and at the peak during) EVERY insert and finish the builder's live heap <= B(rows,cols,F,L) = heap_after_new + 2*(cells*(max(4,2F)*24+32) + (L+2)*(max(4,2F)*24+32) + [2(L+2)*80 if L+2>64] + 2L) + 512, which has no term in the number of keys; after finish everything is freed. (2) finite ladder (not exhaustive): 16-byte keys over {a..d} with irregular gaps and non-shareable values, sets and maps, N in {1e4,1e5,2e5,4e5} (thorough: 1e6,4e6,1e7), geometries 1x1, 2x2, 100x2 and the default 10000x2, two ladders with varying key lengths (alternating 16/28-byte keys; keys that are proper prefixes of their successors), and a wide-node ladder (250..5000 (thorough 100000) distinct nodes of fan-out 40, the node form with an index table): peak live <= B for every N and, for geometries with <= 200 cells, |peak(N_{i+1}) - peak(N_i)| <= 1 KiB. non-trivial = histories with >= 8 keys".into();
+    p.rule = "counting allocator with per-thread counters; the builder streams to a discarding sink. (1) exhaustive: under the tiny cache geometries 1x1, 1x2, 2x2, 3x3 (cache saturated after a handful of inserts, i.e. the regime 'evicting on every miss' is reachable) every subset of U_ab3 as set and map, and every prefix of the sorted universes {a,b}^<=6 and {a,b,c,d}^<=4: after (and at the peak during) EVERY insert and finish the builder's live heap <= B(rows,cols,F,L) = heap_after_new + 2*(cells*(max(4,2F)*24+32) + (L+2)*(max(4,2F)*24+32) + [2(L+2)*80 if L+2>64] + 2L) + 512, which has no term in the number of keys; after finish everything is freed. (2) finite ladder (not exhaustive): 16-byte keys over {a..d} with irregular gaps and non-shareable values, sets and maps, N in {1e4,1e5,2e5,4e5} (thorough: 1e6,4e6,1e7), geometries 1x1, 2x2, 100x2 and the default 10000x2, two ladders with varying key lengths (alternating 16/28-byte keys; keys that are proper prefixes of their successors), and a wide-node ladder (250..5000 (thorough 100000) distinct nodes of fan-out 40, 100, 256 and of widths cycling through 33..64, the node form with an index table): peak live <= B for every N and, for geometries with <= 200 cells, |peak(N_{i+1}) - peak(N_i)| <= 1 KiB. non-trivial = histories with >= 8 keys".into();
     p.assumptions = vec![
         "'for all N' beyond the ladder is not decided by a bounded exploration; the ladder is a finite family and is reported as such".into(),
         "heap attributable to the builder = sum over its API calls of the change of the thread's live bytes (harness allocations are outside the measured calls)".into(),
@@ -306,23 +330,28 @@ pub fn plan(tier: Tier) -> Plan {
     // wide-node ladder (fan-out 40)
     let wide_ps: Vec<u64> = if thorough { vec![250, 2_500, 5_000, 25_000, 100_000] } else { vec![250, 2_500, 5_000] };
     let wide_peaks: Arc<Mutex<BTreeMap<(Geom, bool, u64), i64>>> = Arc::new(Mutex::new(BTreeMap::new()));
-    for g in [(1usize, 1usize), (2, 2), (100, 2), (10_000, 2)] {
-        for is_set in [true, false] {
-            for &np in &wide_ps {
-                let wide_peaks = wide_peaks.clone();
-                p.units.push(unit("wide-node-ladder-(finite-family)", format!("wide ladder {:?} set={} prefixes={}", g, is_set, np), move |st, rep| {
-                    st.evals += 1;
-                    st.states += np * 40 + 2;
-                    st.transitions += np * 40 + 2;
-                    st.nontrivial += 1;
-                    match run_wide_ladder(g, is_set, np) {
-                        Ok(t) => {
-                            st.count("wide_ladder_points", 1);
-                            wide_peaks.lock().unwrap().insert((g, is_set, np), t.max_live);
-                        }
-                        Err(msg) => rep.violation(format!("wide ladder {:?} set={} prefixes={}", g, is_set, np), msg, json!({"wide_prefixes": np, "geom": [g.0, g.1], "set": is_set})),
+    for width in [40u64, 100, 256, 0] {
+        for g in [(1usize, 1usize), (2, 2), (100, 2), (10_000, 2)] {
+            for is_set in [true, false] {
+                for &np in &wide_ps {
+                    if width != 40 && !thorough && (g == (10_000, 2) || np == 250) {
+                        continue;
                     }
-                }));
+                    let wide_peaks = wide_peaks.clone();
+                    p.units.push(unit("wide-node-ladder-(finite-family)", format!("wide ladder w={} {:?} set={} prefixes={}", width, g, is_set, np), move |st, rep| {
+                        st.evals += 1;
+                        st.states += np * 40 + 2;
+                        st.transitions += np * 40 + 2;
+                        st.nontrivial += 1;
+                        match run_wide_ladder_w(g, is_set, np, width) {
+                            Ok(t) => {
+                                st.count("wide_ladder_points", 1);
+                                wide_peaks.lock().unwrap().insert((g, is_set, np + width * 1_000_000), t.max_live);
+                            }
+                            Err(msg) => rep.violation(format!("wide ladder w={} {:?} set={} prefixes={}", width, g, is_set, np), msg, json!({"wide_prefixes": np, "wide_width": width, "geom": [g.0, g.1], "set": is_set})),
+                        }
+                    }));
+                }
             }
         }
     }
@@ -360,7 +389,8 @@ pub fn plan(tier: Tier) -> Plan {
             // bound B, which has the cells term, is asserted for every N)
             for g in [(1usize, 1usize), (2, 2)] {
                 for is_set in [true, false] {
-                    for w in wide_ps2.windows(2) {
+                    for (w, width) in wide_ps2.windows(2).flat_map(|w| [40u64, 100, 256, 0].into_iter().map(move |x| (w, x))) {
+                        let w = [w[0] + width * 1_000_000, w[1] + width * 1_000_000];
                         if let (Some(a), Some(b)) = (pk.get(&(g, is_set, w[0])), pk.get(&(g, is_set, w[1]))) {
                             if (a - b).abs() > 4096 {
                                 rep.violation(
